@@ -101,6 +101,8 @@ type HintBuffer struct {
 type hintSplit struct {
 	buf  *HintBuffer
 	file *hintFileIndex
+	// dumping is set (under the chunk lock) while dump() writes the split with the lock released
+	dumping bool
 }
 
 func NewHintBuffer() *HintBuffer {
@@ -111,7 +113,7 @@ func NewHintBuffer() *HintBuffer {
 }
 
 func newhintSplit() *hintSplit {
-	return &hintSplit{NewHintBuffer(), nil}
+	return &hintSplit{buf: NewHintBuffer()}
 }
 
 func (h *HintBuffer) SetMaxOffset(offset uint32) {
@@ -208,7 +210,7 @@ func (h *HintBuffer) Dump(path string) (index *hintFileIndex, err error) {
 }
 
 func (h *hintSplit) needDump() bool {
-	return h.file == nil && h.buf.num > 0
+	return h.file == nil && !h.dumping && h.buf.num > 0
 }
 
 type hintChunk struct {
@@ -355,6 +357,9 @@ func (h *hintMgr) dump(chunkID, splitID int) (err error) {
 	ck := h.chunks[chunkID]
 	sp := ck.splits[splitID]
 
+	// the chunk lock is released while the file is written: keep a second dumper (periodic
+	// dumper, split rotation, close) from writing the same tmp file at the same time
+	sp.dumping = true
 	ck.Unlock()
 	defer ck.Lock()
 
